@@ -216,6 +216,11 @@ func ruleSchemaEmbed(c *Ctx, r *Report) {
 		ok := len(rd) == 1 && len(um) == 1 && len(rb) == 1 && errTestedAfter(c, f, f.Decl.Body, rd[0]) && (isIfInit(c, f, um[0]) || errTestedAfter(c, f, f.Decl.Body, um[0])) && isNilConst(info, rb[0].Args[1])
 		r.Check(ok, "ygot.GzipToSchema:decodes-everything", c.Pos(f.Decl.Pos()), "ReadAll → Unmarshal → rebuildSchemaMap(root, nil, …), errors returned", "GzipToSchema does not read, decode and index the whole embedded schema")
 	}
+	schemaRebuildObligations(c, r)
+}
+
+// schemaRebuildObligations: decoding side shared by C27 and C32 (IsConfig walks Parent pointers).
+func schemaRebuildObligations(c *Ctx, r *Report) {
 	if f := c.MustFunc(r, "ygot", "rebuildSchemaMap"); f != nil {
 		info := f.Info()
 		parentSet, recAll := false, false
@@ -227,8 +232,14 @@ func ruleSchemaEmbed(c *Ctx, r *Report) {
 			}
 			if rs, ok := s.(*ast.RangeStmt); ok && strings.HasSuffix(types.ExprString(rs.X), ".Dir") {
 				calls := CallsIn(info, rs.Body, P("ygot")+".rebuildSchemaMap")
-				if len(calls) == 1 && rs.Value != nil && ObjOf(info, calls[0].Args[0]) == ObjOf(info, rs.Value) && paramIndex(f, ObjOf(info, calls[0].Args[1])) == 0 &&
-					len(branchStmts(rs.Body, token.CONTINUE))+len(branchStmts(rs.Body, token.BREAK)) == 0 && len(c.factsWithin(f, calls[0], rs.Body)) == 0 {
+				direct := false
+				if len(calls) == 1 {
+					if es, ok := c.parentMap(f.File)[calls[0]].(*ast.ExprStmt); ok && c.parentMap(f.File)[es] == ast.Node(rs.Body) {
+						direct = true // the call is a statement of the loop body itself: no if/switch around it
+					}
+				}
+				if len(calls) == 1 && direct && rs.Value != nil && ObjOf(info, calls[0].Args[0]) == ObjOf(info, rs.Value) && paramIndex(f, ObjOf(info, calls[0].Args[1])) == 0 &&
+					len(branchStmts(rs.Body, token.CONTINUE))+len(branchStmts(rs.Body, token.BREAK)) == 0 {
 					recAll = true
 				}
 			}
@@ -257,6 +268,12 @@ func ruleSchemaEmbed(c *Ctx, r *Report) {
 		})
 		r.Check(idx, "ygot.rebuildSchemaMap:indexes-structname", c.Pos(f.Decl.Pos()), "schema[structname] = e for every annotated entry, before any exit", "rebuildSchemaMap does not index every entry that carries a structname annotation (an early exit or extra condition precedes the indexing): e.g. childless containers, whose Dir is omitted from the JSON, vanish from the schema map")
 	}
+}
+
+// ruleSchemaRebuild: the decoding-side obligations under their own rule header (C32).
+func ruleSchemaRebuild(c *Ctx, r *Report) {
+	r.Rule("R-SCHEMA-REBUILD", "GzipToSchema's rebuildSchemaMap restores Parent (not serialised) on every entry and visits every child: util.IsConfig walks Parent pointers, so an entry left without a parent loses its inherited config false", 3)
+	schemaRebuildObligations(c, r)
 }
 
 // ruleSchemaReadSet: R-SCHEMA-READSET.
